@@ -433,7 +433,7 @@ def to_coq(c, o):
             for v in row[:5]:
                 h = (h * 131 + v + 1) % 4294967291
             if row[5] > 0:
-                ch.append("(%d%%nat,(%d%%N,%d%%N))" % (i, row[5] - 1, row[6]))
+                ch.append("ch %d %d %d" % (i, row[5] - 1, row[6]))
         fr = [zl(r) for r in o["final"]]
         fin = "(" + "\n ++ ".join("[" + ";".join(fr[i:i + 100]) + "]" for i in range(0, max(1, len(fr)), 100)) + ")"
         # long list literals are slow to elaborate in one piece: chunks of 100 joined with ++
